@@ -118,6 +118,12 @@ TYPE_RULES = [
     ("int[]", "null", "la", "array<-null"), ("float[]", "la", "lfa", "float[]<-int[]"),
     ("int[]", "li", "la", "array<-int"), ("string", "lo", "\"t\"", "string<-object"),
     ("float", "lz", "2.5f", "float<-boolean"), ("long", "ls", "3L", "long<-string"),
+    # the value of an assignment expression has the type of its target
+    ("int", "(lf = 2.5f)", "(li = 3)", "int<-assign-expr:float"),
+    ("float", "(li = 3)", "(lf = 2.5f)", "float<-assign-expr:int"),
+    ("int", "(lo.ff = 2.5f)", "(lo.fi = 3)", "int<-member-assign-expr:float"),
+    ("string", "(la[0] = 1)", "(ls = \"u\")", "string<-array-assign-expr:int"),
+    ("Sub", "(lbase = lsub)", "(lsub = lsub)", "sub<-assign-expr:base"),
 ]
 
 
@@ -356,6 +362,10 @@ PROGRAM_RULES = [
      "class B0 { public constructor() -> B0 = default; public virtual function m() -> int; } class R0 extends B0 { public constructor() -> R0 { super(); return this; } public override function m() -> int { return 1; } } function use0() -> void { R0 r = new R0(); }"),
     ("super-not-first", "class B0 { public constructor() -> B0 = default; } class R0 extends B0 { public int x; public constructor() -> R0 { this.x = 1; super(); return this; } }",
      "class B0 { public constructor() -> B0 = default; } class R0 extends B0 { public int x; public constructor() -> R0 { super(); this.x = 1; return this; } }"),
+    ("abstract-not-implemented:passed-through", "class B0 { public constructor() -> B0 = default; public virtual function m() -> int; } class M0 extends B0 { public constructor() -> M0 { super(); return this; } } class R0 extends M0 { public constructor() -> R0 { super(); return this; } } function use0() -> void { R0 r = new R0(); }",
+     "class B0 { public constructor() -> B0 = default; public virtual function m() -> int; } class M0 extends B0 { public constructor() -> M0 { super(); return this; } } class R0 extends M0 { public constructor() -> R0 { super(); return this; } public override function m() -> int { return 1; } } function use0() -> void { R0 r = new R0(); }"),
+    ("abstract-not-implemented:middle-instantiated", "class B0 { public constructor() -> B0 = default; public virtual function m() -> int; } class M0 extends B0 { public constructor() -> M0 { super(); return this; } } class R0 extends M0 { public constructor() -> R0 { super(); return this; } public override function m() -> int { return 1; } } function use0() -> void { M0 r = new M0(); }",
+     "class B0 { public constructor() -> B0 = default; public virtual function m() -> int; } class M0 extends B0 { public constructor() -> M0 { super(); return this; } } class R0 extends M0 { public constructor() -> R0 { super(); return this; } public override function m() -> int { return 1; } } function use0() -> void { M0 r = new R0(); }"),
     ("missing-ctor", "class R0 { public int x; }", "class R0 { public int x; public constructor() -> R0 = default; }"),
     ("duplicate-function", "function d0() -> void { } function d0() -> void { }", "function d0() -> void { } function d1() -> void { }"),
     ("duplicate-method", "class R0 { public constructor() -> R0 = default; public function m(int a) -> int { return 1; } public function m(int b) -> int { return 2; } }",
